@@ -8,7 +8,8 @@ from core import simcase as S
 from core import impl as I
 
 ID = "C01"
-LEAN_MODULES = ["AcnProofs.C01", "AcnProofs.Lemmas.EventCorePilots", "AcnProofs.Lemmas.EventCoreSimFail", "AcnProofs.Lemmas.EventCoreStep"]
+LEAN_MODULES = ["AcnProofs.C01", "AcnProofs.C01Assemble", "AcnProofs.Lemmas.EventCorePilots", "AcnProofs.Lemmas.EventCoreSimFail",
+                "AcnProofs.Lemmas.EventCoreStep", "AcnProofs.Lemmas.EventCoreAssemble"]
 TIE_MODULES = ["AcnProofs.Lemmas.CodeTieQueue"]
 DRIVER = "drv_C01"
 REQUIRED_THEOREMS = [
@@ -25,6 +26,9 @@ REQUIRED_THEOREMS = [
     "Acn.C01.bodyG_chargingNet_eq_body", "Acn.C01.cfg1_validQ", "Acn.Sim.body_core_any", "Acn.C01.sim_runQ_heap_C01",
     "Acn.Sim.step_runs_first_pass", "Acn.Sim.step_first_pass_error", "Acn.Sim.stepPass_applies_schedule", "Acn.Sim.stepPass_core",
     "Acn.Sim.stepUnfixed_noop_of_resolve", "Acn.Sim.stepUnfixed_typeError", "Acn.Sim.stepPass_sets_resolve", "Acn.Sim.stepsUnfixed_stall",
+    # any split / insertion order of the events between the constructor and later add_events; run() called again
+    "Acn.EventCore.foldl_push_ok", "Acn.EventCore.assembled_inv", "Acn.Sim.runStages_replicate_nil",
+    "Acn.C01.run_terminates_assembled", "Acn.C01.sim_assembled_heap_C01",
 ]
 BUDGET = {"quick": 1200, "thorough": 15000, "search": 8000}
 TRUSTED = ["CPython heapq: heappop returns a <-minimal entry and keeps the rest (which one among equal "
